@@ -1,7 +1,7 @@
 import PytezosModel.Generated.C20
 /-! C20 — tickets: a mini-interpreter mirroring how pytezos executes the ticket instructions together with the
-pair / option / list / map / big_map and stack instructions (src/pytezos/michelson/instructions/{ticket,adt,struct,stack,
-control}.py, types/{ticket,base,map,big_map,list,option}.py, stack.py).
+pair / or / option / list / set / map / big_map / lambda and stack instructions (src/pytezos/michelson/instructions/{ticket,
+adt,struct,stack,control}.py, types/{ticket,base,map,big_map,set,sum,list,option}.py, stack.py).
 
 What is mirrored literally: `MichelsonStack` (`items` + `protected`: `protect`, `restore`, `push` = `insert(protected, …)`,
 `peek`, `pop`), every instruction's dynamic checks (`assert_type_in`, `assert_type_equal`, `is_duplicable`, `duplicate`,
@@ -38,6 +38,7 @@ inductive Ty where
   | pair (a b : Ty)
   | or (a b : Ty)
   | set (t : Ty)
+  | lambda (a b : Ty)
   | option (t : Ty)
   | list (t : Ty)
   | map (k v : Ty)
@@ -48,11 +49,11 @@ inductive Ty where
 
 def Ty.prim : Ty → String
  | .nat => "nat" | .string => "string" | .address => "address" | .unit => "unit" | .bool => "bool"
-  | .pair .. => "pair" | .or .. => "or" | .set _ => "set" | .option _ => "option" | .list _ => "list" | .map .. => "map" | .bigMap .. => "big_map"
+  | .pair .. => "pair" | .or .. => "or" | .set _ => "set" | .lambda .. => "lambda" | .option _ => "option" | .list _ => "list" | .map .. => "map" | .bigMap .. => "big_map"
   | .ticket _ => "ticket" | .ticketBare => "ticket"
 
-/-- the shape shared by `is_duplicable` / `is_comparable` / `is_pushable`: false on the listed prims, otherwise all
-arguments (there is no `lambda` in this model) -/
+/-- the shape shared by `is_duplicable` / `is_comparable` / `is_pushable`: false on the listed prims, true on `lambda`
+(whatever its arguments), otherwise all arguments -/
 def Ty.all (bad : List String) : Ty → Bool
   | .nat => !bad.contains "nat"
   | .string => !bad.contains "string"
@@ -62,6 +63,7 @@ def Ty.all (bad : List String) : Ty → Bool
   | .pair a b => !bad.contains "pair" && (a.all bad && b.all bad)
   | .or a b => !bad.contains "or" && (a.all bad && b.all bad)
   | .set t => !bad.contains "set" && t.all bad
+  | .lambda _ _ => !bad.contains "lambda"          -- `elif cls.prim == 'lambda': return True`: the arguments are not looked at
   | .option t => !bad.contains "option" && t.all bad
   | .list t => !bad.contains "list" && t.all bad
   | .map k v => !bad.contains "map" && (k.all bad && v.all bad)
@@ -94,8 +96,10 @@ def cfg : Cfg where
   bigGetDup := Generated.C20.bigMapGetHonoursDup.getD false
   dupChecksBig := Generated.C20.dupChecksBigMap.getD false && Generated.C20.duplicateAsserts
 
-/-- runtime values.  A (big_)map keeps its keys and values in two lists of equal length (`items` of the Python object);
-`removed` = `BigMapType.removed_keys`.  Map keys are atoms (pair keys are outside the model). -/
+/- runtime values and instructions (mutual: a lambda value holds code, PUSH holds a value).  A (big_)map keeps its keys
+and values in two lists of equal length (`items` of the Python object); `removed` = `BigMapType.removed_keys`.  Map keys
+are atoms (pair keys are outside the model). -/
+mutual
 inductive Val where
   | atom (a : Atom)
   | ticket (cls : Ty) (ticketer : String) (contents : Cmp) (amount : Nat)
@@ -109,7 +113,27 @@ inductive Val where
   | right (lt : Ty) (v : Val)
   /-- a set of atoms (other element types are outside the model) -/
   | set (t : Ty) (xs : List Atom)
-  deriving Inhabited
+  /-- `LambdaType(value=body)` of class `lambda a b` -/
+  | lam (a b : Ty) (body : List Instr)
+inductive Instr where
+  | ticket | readTicket | splitTicket | joinTickets
+  | pair | unpair | car | cdr
+  | some | none (t : Ty) | ifNone (bt bf : List Instr)
+  | cons | nil (t : Ty) | iter (body : List Instr) | map (body : List Instr)
+  | dup | dupN (n : Nat) | swap | dig (n : Nat) | dug (n : Nat) | drop
+  | dip (body : List Instr) | dipN (n : Nat) (body : List Instr)
+  | push (t : Ty) (v : Val)
+  | emptyMap (k v : Ty) | emptyBigMap (k v : Ty)
+  | get | getAndUpdate | update
+  | left (t : Ty) | right (t : Ty) | ifLeft (bt bf : List Instr)
+  | emptySet (t : Ty) | mem
+  | lambda (a b : Ty) (body : List Instr) | exec | apply
+  | failwith
+  | seq (body : List Instr)
+end
+
+instance : Inhabited Val := ⟨.atom .unit⟩
+instance : Inhabited Instr := ⟨.drop⟩
 
 def Atom.ty : Atom → Ty
   | .nat _ => .nat | .str _ => .string | .addr _ => .address | .unit => .unit | .bool _ => .bool
@@ -130,6 +154,7 @@ def Val.typeOf : Val → Ty
   | .left v rt => .or v.typeOf rt
   | .right lt v => .or lt v.typeOf
   | .set t _ => .set t
+  | .lam a b _ => .lambda a b
 
 def Cmp.toVal : Cmp → Val
   | .atom a => .atom a
@@ -308,22 +333,6 @@ def storeOk (vt : Ty) : Option Val → Bool
 
 /-! ### instructions -/
 
-inductive Instr where
-  | ticket | readTicket | splitTicket | joinTickets
-  | pair | unpair | car | cdr
-  | some | none (t : Ty) | ifNone (bt bf : List Instr)
-  | cons | nil (t : Ty) | iter (body : List Instr) | map (body : List Instr)
-  | dup | dupN (n : Nat) | swap | dig (n : Nat) | dug (n : Nat) | drop
-  | dip (body : List Instr) | dipN (n : Nat) (body : List Instr)
-  | push (t : Ty) (v : Val)
-  | emptyMap (k v : Ty) | emptyBigMap (k v : Ty)
-  | get | getAndUpdate | update
-  | left (t : Ty) | right (t : Ty) | ifLeft (bt bf : List Instr)
-  | emptySet (t : Ty) | mem
-  | failwith
-  | seq (body : List Instr)
-  deriving Inhabited
-
 /-- what `create_type` asserts when the type arguments of an instruction are matched (before anything runs):
 keys of map / big_map and ticket contents are comparable; there is no source syntax for the bare ticket class -/
 def Ty.wf (c : Cfg) : Ty → Bool
@@ -335,6 +344,7 @@ def Ty.wf (c : Cfg) : Ty → Bool
   | .ticket t => t.all c.nonCmp && t.wf c
   | .or a b => a.wf c && b.wf c
   | .set t => t.all c.nonCmp && t.wf c
+  | .lambda a b => a.wf c && b.wf c
   | .ticketBare => false
   | _ => true
 
@@ -350,6 +360,7 @@ mutual
     | .right t => t.wf c
     | .ifNone a b => Instr.wfList c a && Instr.wfList c b
     | .ifLeft a b => Instr.wfList c a && Instr.wfList c b
+    | .lambda a b body => a.wf c && b.wf c && Instr.wfList c body
     | .iter b => Instr.wfList c b
     | .map b => Instr.wfList c b
     | .dip b => Instr.wfList c b
@@ -379,6 +390,7 @@ mutual
     | .left v _ => v.consistent
     | .right _ v => v.consistent
     | .set _ xs => nodupB xs
+    | .lam .. => true
   def Val.consistentList (t : Ty) : List Val → Bool
     | [] => true
     | x :: xs => x.typeOf == t && x.consistent && Val.consistentList t xs
@@ -541,6 +553,15 @@ def simple (c : Cfg) (s : State) : Instr → Option (M State)
   | .right t => Option.some do
     let (v, s) ← s.pop1
     pure (s.push (.right t v))
+  | .lambda a b body => Option.some (pure (s.push (.lam a b body)))
+  | .apply => Option.some do
+    let (left, lam, s) ← s.pop2
+    match lam with
+    | .lam (.pair lt rt) b body =>
+      if left.typeOf != lt then .error .fail
+      -- `{ PUSH left_type <literal of left> ; PAIR ; <body> }`: the captured value is re-read from its literal when the PUSH runs
+      else pure (s.push (.lam rt b [.push lt left, .pair, .seq body]))
+    | _ => .error .fail
   | .emptySet t => Option.some (if t.isAtomTy then pure (s.push (.set t [])) else .error .unmodelled)
   | .mem => Option.some do
     let (key, src, s) ← s.pop2
@@ -607,6 +628,19 @@ mutual
           match o with
           | .none _ => execSeq c f bt s
           | .some v => execSeq c f bf (s.push v)
+          | _ => .error .fail
+        | .exec => do
+          let (param, lam, s) ← s.pop2
+          match lam with
+          | .lam a b body =>
+            if param.typeOf != a then .error .fail
+            else do
+              -- `lambda_stack = MichelsonStack.from_items([param])`; the body runs on it with the same context
+              let ls ← execSeq c f body { s with items := [param], prot := 0 }
+              let (res, ls) ← ls.pop1
+              if res.typeOf != b then .error .fail
+              else if !ls.items.isEmpty then .error .fail
+              else pure ({ s with typedStores := ls.typedStores, minted := ls.minted }.push res)
           | _ => .error .fail
         | .ifLeft bt bf => do
           let (o, s) ← s.pop1
